@@ -21,8 +21,14 @@ class Svc(rpyc.Service):
         return (self.n, os.getpid())
 srv = ForkingServer(Svc, hostname="127.0.0.1", port=0, logger=lg, listener_timeout=0.05, auto_register=False)
 port = srv.port
+import signal
+# the main thread (the only one that may receive SIGCHLD) can be told to hold child-exit signals back for a while: several
+# children exiting meanwhile then arrive as ONE signal, as they do whenever they exit close together
+signal.signal(signal.SIGUSR1, lambda *a: signal.pthread_sigmask(signal.SIG_BLOCK, [signal.SIGCHLD]))
+signal.signal(signal.SIGUSR2, lambda *a: signal.pthread_sigmask(signal.SIG_UNBLOCK, [signal.SIGCHLD]))
 def client():
     res = out
+    signal.pthread_sigmask(signal.SIG_BLOCK, [signal.SIGCHLD])
     try:
         time.sleep(0.2)
         c1 = rpyc.connect("127.0.0.1", port, config={"sync_request_timeout": 3})
@@ -53,6 +59,20 @@ def client():
                 res["listener_after_close"] = "open"
             except Exception:
                 res["listener_after_close"] = "closed"
+        elif MODE == "burst":
+            os.kill(os.getpid(), signal.SIGUSR1)
+            time.sleep(0.3)
+            c1.close(); c2.close()
+            for _ in range(40):
+                time.sleep(0.05)
+                if children().count("Z") >= 2:
+                    break
+            res["zombies_while_held"] = children().count("Z")
+            os.kill(os.getpid(), signal.SIGUSR2)          # one SIGCHLD for both
+            time.sleep(0.6)
+            res["children_after_leave"] = children()
+            _thread.interrupt_main()
+            time.sleep(0.3)
         else:
             c1.close(); c2.close()
             time.sleep(0.5)
@@ -116,7 +136,7 @@ def run_probe(mode, repo):
 
 def run_forking(chk, pid, which):
     repo = os.environ.get("VERIF_REPO") or "/repo"
-    for mode in ("close", "leave"):
+    for mode in ("close", "leave", "burst"):
         res = run_probe(mode, repo)
         chk.evaluated()
         chk.distinct(("forking", mode))
@@ -144,7 +164,12 @@ def run_forking(chk, pid, which):
                 if res.get("listener_after_close") != "closed":
                     chk.violation("forking:listener-open", "%s [forking server] the listener is still open after close()" % pid,
                                   {"flavour": "forking", "mode": mode})
-            if "Z" in (res.get("children_at_end") or []) or "Z" in (res.get("children_after_leave") or []):
+            if mode in ("leave", "burst") and "Z" in (res.get("children_after_leave") or []):
+                chk.violation("forking:zombies-while-running", "%s [forking server] while the server is running, child processes of "
+                              "departed clients are left as zombies (%s)%s" % (pid, res.get("children_after_leave"),
+                              "; two clients left close together, their exits arrived as one signal" if mode == "burst" else ""),
+                              {"flavour": "forking", "mode": mode})
+            elif "Z" in (res.get("children_at_end") or []) or "Z" in (res.get("children_after_leave") or []):
                 chk.violation("forking:zombies", "%s [forking server] child processes of departed clients are left as zombies (%s)" % (
                     pid, res.get("children_at_end")), {"flavour": "forking", "mode": mode})
         chk.sample({"kind": "forking server scenario (child process)", "mode": mode, "result": {k: v for k, v in res.items() if k != "steps"}})
